@@ -258,6 +258,15 @@ func (rn *c19Renaming) eq(a, b interface{}, node *c19Node, path []string, where 
 		if rn.newC != "" && x == rn.oldC && y == rn.newC {
 			return "" // a call id that took the new callable name
 		}
+		// an unresolved reference to a pipeline input inside a split source description ("in.path")
+		if rn.inOld != "" && len(path) > 0 && path[len(path)-1] == "ref" {
+			if x == rn.inOld && y == rn.inNew {
+				return ""
+			}
+			if strings.HasPrefix(x, rn.inOld+".") && y == rn.inNew+x[len(rn.inOld):] {
+				return ""
+			}
+		}
 		// references spelled with a call id instead of a fully qualified id ("CALL.out.path")
 		if i := strings.IndexByte(x, '.'); i > 0 {
 			cid, rest := x[:i], x[i+1:]
